@@ -138,6 +138,24 @@ def acct_scenario(rng, size='quick', **over):
     keys = mk_keys(rng, c['key'], 3)
     lines = [line, 'states', 'counts', 'fcounts']
     seed = 1
+    if rng.random() < 0.3:
+        # the newest blob is quarantined in one session, every remaining blob in the next one: the storage starts
+        # from an empty work directory next to a corrupted directory that holds the largest id
+        nb = rng.choice([2, 3])
+        for b in range(nb):
+            lines += [f'w {rng.choice(keys)} {rng.choice(TS_POOL)} - {rng.choice([10, 300])} {seed}', 'states']
+            seed += 1
+            if b < nb - 1:
+                lines += ['force always', 'states']
+        kinds = ['magic', 'hflip:0', 'cut:30']
+        lines += ['counts', 'fcounts', 'nomodel', f'restart bdmg={nb - 1}:{rng.choice(kinds)}', 'states', 'counts', 'fcounts']
+        lines += ['restart bdmg=' + ','.join(f'{b}:{rng.choice(kinds)}' for b in range(nb - 1)) + rng.choice(['', ' lazy']),
+                  'states', 'counts', 'fcounts']
+        for _ in range(2):
+            lines += [f'w {rng.choice(keys)} {rng.choice(TS_POOL)} - 10 {seed}', 'states', 'counts', 'fcounts']
+            seed += 1
+        lines += ['force always', 'states', 'counts', 'fcounts', 'restart', 'states', 'counts', 'fcounts']
+        return lines
     nblobs = 1
     damaged = False
     for _ in range(rng.randint(6, 14) if size == 'quick' else rng.randint(10, 30)):
@@ -278,6 +296,28 @@ def worker_scenario(rng, size='quick', **over):
             else:
                 lines += [f'w {k} {rng.choice(TS_POOL)} - 5 {seed}', 'states']
                 seed += 1
+    y = rng.random()
+    if y < 0.2:
+        # several closed blobs whose indexes are back in memory (a delete reached them), then ONE dump request while the
+        # first index file creation stalls for longer than the pass's time quantum: the request must still dump them all
+        kk = keys[0]
+        lines = [line.replace(f'maxdata={maxdata}', 'maxdata=1000000'), 'states']
+        nb = rng.choice([3, 4])
+        for b in range(nb):
+            lines += [f'w {kk} {rng.choice([3, 5])} - 10 {b + 1}', 'states', 'close_active', 'states']
+        lines += ['settle', 'res', f'd {kk} 9 - 1', 'states', 'res', 'nomodel',
+                  'fault create 0 .index pause:1', f'releaselater 1 {rng.choice([300, 450])}', 'free', 'quiesce', 'clearfaults', 'res',
+                  'alive', 'settle', 'res', 'close', 'open', 'states', 'counts']
+        return lines
+    if y < 0.45:
+        # requests are still queued when `close` is called (no probe in between): close returns
+        pre = [f'w {rng.choice(keys)} {rng.choice(TS_POOL)} - 5 {seed}', 'states']
+        calls = rng.choice([['close_active_bg', 'restore_active_bg'], ['close_active_bg', 'create_active_bg'],
+                            ['close_active_bg'], ['restore_active_bg', 'close_active_bg', 'restore_active_bg']])
+        calls = [x + ' @nodrain' for x in calls]
+        lines += pre + calls + ['close', 'open', 'states', 'counts', 'alive']
+        lines += [f'w {rng.choice(keys)} {rng.choice(TS_POOL)} - 5 {seed + 1}', 'states'] + calls + ['close', 'open', 'states', 'counts']
+        return lines
     # overflow: the active blob is filled beyond its record limit, then a write after the debounce interval
     lines += ['wait 260']
     for _ in range(maxdata + rng.randint(0, 2)):
@@ -426,6 +466,20 @@ def sync_fault_scenario(rng, size='quick', **over):
         lines += [f'w {rng.choice(keys)} {rng.choice(TS_POOL)} {rng.choice(METAS_W)} {rng.choice([0, 10, 300, 5000])} {seed % 250 + 1}',
                   'states', 'trace', 'fstates']
         seed += 1
+    if rng.random() < 0.35:
+        # the background sync that a write over the limit requests fails; once the fault is gone, the next writes over
+        # the limit must be followed by a sync again
+        lim = int(c['dirty']) if int(c['dirty']) in (0, 100) else 100
+        lines[0] = lines[0].replace(f"dirty={c['dirty']}", f'dirty={lim}')
+        lines += ['quiesce', 'nomodel', f'fault sync 0 .blob fail:{rng.choice([5, 28])}' + rng.choice(['', ' sticky']),
+                  f'w {rng.choice(keys)} {rng.choice(TS_POOL)} - 3000 {seed % 250 + 1}', 'states', 'trace', 'fstates',
+                  'clearfaults']
+        seed += 1
+        for _ in range(3):
+            lines += [f'w {rng.choice(keys)} {rng.choice(TS_POOL)} - {rng.choice([600, 3000])} {seed % 250 + 1}', 'states', 'trace', 'fstates']
+            seed += 1
+        lines += ['settle', 'trace', 'fstates', 'close', 'trace', 'open', 'trace', 'fstates']
+        return lines
     lines += ['quiesce', 'nomodel', f'fault sync {rng.choice([0, 0, 1])} .blob fail:5' + rng.choice(['', ' sticky'])]
     how = rng.choice(['close_active', 'close_active', 'force', 'close'])
     if how == 'close_active':
@@ -451,6 +505,22 @@ def harm_scenario(rng, size='quick', **over):
     absent = absent_keys(rng, klen, keys)
     lines = [line, 'states', 'snap', 'trace']
     seed = 1
+    if rng.random() < 0.15 and c['ignore'] == 0:
+        # the newest blob is quarantined in one session, all the others in the next one (the storage then starts from
+        # an empty work directory), and finally the blob created after that: nothing quarantined may be replaced
+        nb = rng.choice([2, 3])
+        for b in range(nb):
+            lines += [f'w {rng.choice(keys)} {rng.choice(TS_POOL)} - {rng.choice([10, 300])} {seed}', 'states', 'snap']
+            seed += 1
+            if b < nb - 1:
+                lines += ['force always', 'states', 'snap']
+        kinds = ['magic', 'hflip:0', 'cut:30']
+        lines += ['nomodel', f'restart bdmg={nb - 1}:{rng.choice(kinds)}', 'states', 'snap', 'trace']
+        lines += ['restart bdmg=' + ','.join(f'{b}:{rng.choice(kinds)}' for b in range(nb - 1)), 'states', 'snap', 'trace']
+        lines += [f'w {rng.choice(keys)} {rng.choice(TS_POOL)} - 10 {seed}', 'states', 'snap']
+        for cand in (nb, nb - 1):
+            lines += [f'restart bdmg={cand}:magic', 'states', 'snap', 'trace']
+        return lines
     n = rng.randint(6, 14) if size == 'quick' else rng.randint(10, 40)
     nblobs = 1
     damaged = False
@@ -831,6 +901,20 @@ def cancel_scenario(rng, size='quick', **over):
             ts += 1
             op = rng.choice([f'd {kk} {ts} - 1', f'd {kk} {ts} - 1', 'restore_active'])
             k = rng.choice([1, 2, 2, 3, 3, 4])
+        if rng.random() < 0.15:
+            # a write is dropped while its blocking closure is still inside the file write (held there by a `pause`
+            # failpoint); the next write starts before that closure has finished
+            ts += 1
+            seed += 1
+            big = rng.choice([10, 300, 5000, 90000])
+            lines += ['fault write 0 .blob pause:1', f'cancel p w {rng.choice(keys)} {ts} - {big} {seed % 250 + 1}', 'states']
+            for _ in range(rng.choice([1, 2])):
+                ts += 1
+                seed += 1
+                lines += [f'w {rng.choice(keys)} {ts} - {rng.choice([0, 10, 300])} {seed % 250 + 1}', 'states']
+            lines += ['release 1', 'clearfaults', 'states'] + reads()
+            lines += [rng.choice(['restart noidx', 'restart noidx lazy']), 'states', 'corruptedx'] + reads()
+            continue
         if op == 'close_active' and rng.random() < 0.7:
             # a close that has something to close (and, with k >= 3, is dropped while it works on that blob)
             lines += [data_op(), 'states']
